@@ -17,6 +17,10 @@ attribute [z80spec] exec execOpt execMain execXY execXYtail execXYCB Spec.execut
   decodeBase decodeCB decodeED decodeXY decodeXYCB inXYSet r8 r8plain hlOf rpOf rp2Of condOf aluOf rotOf
   Impl.koron res8 set8 and8 or8 xor8 rld8 rrd8
 
+attribute [z80ctl] exec execOpt execMain execXY execXYtail execXYCB Spec.executeOne consumed
+  Spec.fetch Spec.fetchM1 Spec.fetch16 rd8 wr8 rd16 wr16 push16 pop16 locAddr isMem
+  readLoc writeLoc rmwLoc addDisp doAlu pushSite blkElem portIn portOut
+
 /-- literal word offsets: `x - k` and `(x + a) + b` are normalised to `x + lit` (specific literals
     only: a generic `BitVec.ofNat 16 k` pattern sends the unifier into structure eta on `BitVec`) -/
 @[z80helper] theorem sub1_16 (x : U16) : x - 1#16 = x + 65535#16 := by
